@@ -124,6 +124,13 @@ func (f *compressFilter) Do(cmd string, req *simpleRequest) FilterStatus {
 	}
 
 	// register decompression hook if needed.
+	// A redirected request passes the filter again, its values must not be
+	// compressed (and its response not be decompressed) a second time.
+	if req.cpsDone {
+		return Continue
+	}
+	req.cpsDone = true
+
 	if _, ok := wkSkipCheckCmdsInDecps[cmd]; !ok {
 		req.RegisterHook(func(request *simpleRequest) {
 			f.Decompress(request.resp)
